@@ -81,8 +81,13 @@ def main():
         report["repo_head"] = head
         rc, out = sh(["git", "apply", patch], cwd=wt)
         if rc:
-            print("PATCH DOES NOT APPLY:\n" + out)
-            return 1
+            # written against an older HEAD: try a three-way merge before giving up
+            rc3, out3 = sh(["git", "apply", "-3", patch], cwd=wt)
+            if rc3 or "with conflicts" in out3:
+                print("PATCH DOES NOT APPLY:\n" + out + out3)
+                return 3
+            sh(["git", "reset", "-q"], cwd=wt)
+            report["applied_with_three_way_merge"] = True
         if not args.skip_suite:
             ok, tail = mutants.run_tests(wt)
             report["suite_passes_with_change"] = ok
